@@ -404,7 +404,9 @@ fn figure_out_files<Ns>(mappings: &Mappings<2, Ns>) -> Result<Placement<'_>> {
 		let file_name = dst.unwrap_or(src.as_inner());
 		let file_name = file_name.as_str()
 			.with_context(|| anyhow!("unmatched surrogates in class name for creating file name: {file_name:?}"))?;
-		file_map.insert(file_name, Node { src, class });
+		if file_map.insert(file_name, Node { src, class }).is_some() {
+			bail!("more than one parent-free class would be written to the file {file_name:?}");
+		}
 	}
 
 	// maps can only contain one key each, not two equal keys
